@@ -3,10 +3,11 @@
    dominator sets it computes (and the recovery sets are a function of those, the follow sets and the
    first sets): for any two orders that list the same nodes, with the graph and fixpoint
    certificates of C14, membership in the computed sets coincides.
-   Byte-identical output across processes and behaviour under permuted declarations are runtime
-   behaviour observed on the real binary (see DESIGN.md), not theorems. *)
+   A second clause: the first sets do not depend on the order of the rule declarations.
+   Byte-identical output across processes and the behaviour of the generated parser under permuted
+   declarations are observed on the real binary (see DESIGN.md), not theorems. *)
 From Coq Require Import List Arith.
-From LV Require Import Sema Dominators OrderIndep.
+From LV Require Import Sema Dominators OrderIndep FirstSpec FirstCert FirstOrder.
 
 Theorem C15_dominators_independent_of_iteration_order :
   forall pg start nns1 nns2 fuel1 fuel2 d1 d2,
@@ -19,4 +20,19 @@ Theorem C15_dominators_independent_of_iteration_order :
     (In x (dget d1 n) <-> In x (dget d2 n)).
 Proof. exact dominators_order_independent. Qed.
 
+(* Reordering the rule declarations does not change the first sets: two grammars that hold the same
+   rules at permuted positions ([s] maps old positions to new ones, [t] is its inverse; references are
+   renamed accordingly, node ids kept) get the same first set at every node, whatever the fuel.
+   Both are the derivation-defined set (C09_first_sets_exact), and derivations do not see positions. *)
+Theorem C15_first_sets_independent_of_declaration_order :
+  forall g1 g2 s t fuel1 fuel2 m1 m2,
+  (forall r, t (s r) = r) -> (forall r, s (t r) = r) ->
+  (forall r, body_of g2 (s r) = option_map (rename s) (body_of g1 r)) ->
+  wf_ids_b g1 = true -> productive_b g1 = true -> wf_ids_b g2 = true -> productive_b g2 = true ->
+  calc_first g1 fuel1 = Some m1 -> calc_first g2 fuel2 = Some m2 ->
+  forall x, In x (nodes_of g1) ->
+  forall y, mem y (get m1 (rid_of x)) = mem y (get m2 (rid_of x)).
+Proof. exact first_sets_order_independent. Qed.
+
 Print Assumptions C15_dominators_independent_of_iteration_order.
+Print Assumptions C15_first_sets_independent_of_declaration_order.
